@@ -18,8 +18,12 @@ const HOSTILE: &[&str] = &[
 
 fn hostile_doc(r: &mut R) -> String {
     let v = |r: &mut R| r.pick(HOSTILE).to_string();
-    match r.b(6) {
+    match r.b(7) {
         0 => format!("<ol start=\"{}\">{}</ol>", v(r), "<li>a".repeat(1 + r.u(12))),
+        // an ordered list without items (or with one) in a table cell: its marker width still enters the column's estimate
+        // (added after a mutation of `saturating_sub` in the marker-width computation survived: it differs only for
+        // start = i64::MIN with no items)
+        6 => format!("<table><tr><td><ol start=\"{}\">{}</ol></td><td>qa qb qc qd</td></tr><tr><td>qe</td><td>qf</td></tr></table>", v(r), "<li>qx".repeat(r.u(2))),
         1 => format!("<table><tr><td colspan=\"{}\">a<td colspan=\"{}\">b<tr><td>c<td colspan=\"{}\">d</table>", v(r), v(r), v(r)),
         2 => format!("<table><tr><td colspan={}>a</td><td>b</td></tr><tr><td>c</td></tr></table><ol start={}><li>x</ol>", v(r), v(r)),
         3 => format!("<ul><li><table><tr><td colspan={} rowspan={}>a<td>b</table></ul>", v(r), v(r)),
